@@ -27,7 +27,7 @@ Definition scorer_mw_F (rs : rsF) : mwmap :=
   scorer_mw float f0 PrimFloat.ltb scorer_mw_skip c_isalpha c_lower s_threshold s_min_len s_max_len rs.
 
 Definition score_F (rs : rsF) (m : mwmap) (s : str) : option (category * float) :=
-  score float PrimFloat.mul f0 f1 (parse_s m) rs s.
+  score float PrimFloat.mul f0 f1 scorer_rebuild_check c_upper (parse_s m) rs s.
 
 Definition cat_code (c : category) : nat := match c with CatE => 1 | CatW => 2 | CatOther => 0 end%nat.
 
